@@ -54,6 +54,10 @@ def observed(r, table):
 def check_case_oracle(case, sw, ob, table, baseline=None, base_ob=None):
     """C20's statement on what check-express printed for one (case, switches).  Returns (key, what) or None."""
     path = case.path()
+    if (ob["status"] in ("abort", "timeout") or ob["status"].startswith("signal")) and case.cls == "needless-qualifier-then-unique":
+        return ("unique-stale-unqualified-lookup-crash",
+                f"check-express ends with {ob['status']} on a valid schema ({case.note}): UNIQUE_QUAL_REDECL is reported for the unqualified "
+                "reference that FOLLOWS the needlessly qualified one, quoting expr->e.op2 of an identifier (not an operator expression)")
     if ob["status"] in ("abort", "timeout") or ob["status"].startswith("signal"):
         # a run that dies while printing the expected diagnostic quoted garbage (a conversion consumed a wrong argument)
         for code, args in case.expect:
